@@ -29,7 +29,7 @@ def next_calls(node, iter_name):
 def choice_iter_name(fn):
     for s in A.find(fn["body"], "Let"):
         init = s.get("init")
-        if init is not None and A.binding_name(s["pat"]) and "choices" in A.unparse(init) and ".iter()" in A.unparse(init).replace(" ", ""):
+        if init is not None and A.binding_name(s["pat"]) and "choices" in A.unparse(init) and ".iter()" in A.ftxt(init):
             return A.binding_name(s["pat"]), s
     raise A.AnchorLost("`let mut choice_iter = choices.iter().rev()` in VmData::simplify")
 
@@ -86,7 +86,7 @@ def r1_choice_consumption(rule, root=None):
         n_all = len(next_calls(sk["then"], it))
         ok = (
             len(inner) == 1
-            and A.unparse(A.strip(inner[0]["cond"])).replace(" ", "") == "op.has_choice()"
+            and A.ftxt(A.strip(inner[0]["cond"])) == "op.has_choice()"
             and len(next_calls(inner[0]["then"], it)) == 1
             and n_all == 1
             and inner[0].get("else") is None
@@ -184,7 +184,7 @@ def r2_left_right(rule, root=None):
             rule.ok("%s: Right -> %s" % (lab, b_n), file=DATA, line=cases["Right"]["ln"])
         b = cases["Both"]["body"]
         probs = _remap_problems(b, idx_n, [a_n] if b_is_imm else [a_n, b_n])
-        txt = A.unparse(b).replace(" ", "")
+        txt = A.ftxt(b)
         if "(choice_count+=1)" not in txt:
             probs.append("does not count the surviving choice (`choice_count += 1`)")
         if probs:
@@ -268,7 +268,7 @@ def r_renaming(rule, root=None):
             if v != "Output":
                 continue
             rn = A.binding_name(s[0])
-            txt = A.unparse(a["body"]).replace(" ", "")
+            txt = A.ftxt(a["body"])
             need = [
                 "*%s=workspace.get_or_insert_active(*%s)" % (rn, rn),
                 "workspace.alloc.op(op)",
@@ -299,8 +299,8 @@ def r_renaming(rule, root=None):
                     elif segs and segs[-1] == "None":
                         none = ca
                 if some and none:
-                    st = A.unparse(some[0]["body"]).replace(" ", "")
-                    nt = A.unparse(none["body"]).replace(" ", "")
+                    st = A.ftxt(some[0]["body"])
+                    nt = A.ftxt(none["body"])
                     ok = (
                         "*%s=new_index" % names[0] in st
                         and "*%s=%s" % (names[1], some[1]) in st
@@ -320,16 +320,16 @@ def r_tail(rule, root=None):
     fn = simplify_fn(root)
     loop = main_loop(fn)
     stmts = loop["body"]["stmts"]
-    tail = [A.unparse(s).replace(" ", "") for s in stmts[-2:]]
+    tail = [A.ftxt(s) for s in stmts[-2:]]
     if tail == ["workspace.alloc.op(op);", "ops_out.push(op);"]:
         rule.ok("loop tail: alloc.op(op); ops_out.push(op)", file=DATA, line=stmts[-1]["ln"])
     else:
         rule.bad("tail", "the loop must end with `workspace.alloc.op(op); ops_out.push(op);`, found %s" % tail, A.where(fn, loop))
-    asserts = [m for m in A.find(fn["body"], "Macro") if m["name"] == "assert_eq" and "ops_out.len()" in A.unparse(m).replace(" ", "")]
+    asserts = [m for m in A.find(fn["body"], "Macro") if m["name"] == "assert_eq" and "ops_out.len()" in A.ftxt(m)]
     if len(asserts) == 1:
         args = asserts[0].get("args") or []
         other = [a for a in args if "ops_out" not in A.unparse(a)]
-        t = A.unparse(other[0]).replace(" ", "") if other else ""
+        t = A.ftxt(other[0]) if other else ""
         if "workspace.count" in t and "output_count" in t and "+" in t:
             rule.ok("accounting: count + output_count == ops_out.len()", file=DATA, line=asserts[0]["ln"])
         else:
@@ -344,24 +344,24 @@ def r_tail(rule, root=None):
         rule.bad("result|shape", "expected one `VmData { .. }` result", A.where(fn))
         return
     f = {x["name"]: x["e"] for x in structs[0]["fields"]}
-    vt = A.unparse(f.get("vars")).replace(" ", "")
+    vt = A.ftxt(f.get("vars"))
     if vt != "self.vars.clone()":
         rule.bad("result|vars", "the simplified tape must share the parent's variable map (`self.vars.clone()`), found `%s`" % vt, A.where(fn, structs[0]))
     else:
         rule.ok("result shares self.vars")
     ssa = f.get("ssa")
-    sf = {x["name"]: A.unparse(x["e"]).replace(" ", "") for x in (A.strip(ssa) or {}).get("fields", [])} if ssa else {}
+    sf = {x["name"]: A.ftxt(x["e"]) for x in (A.strip(ssa) or {}).get("fields", [])} if ssa else {}
     want = {"tape": "ops_out", "choice_count": "choice_count", "output_count": "output_count"}
     if sf != want:
         rule.bad("result|ssa", "the simplified SsaTape must be { tape: ops_out, choice_count, output_count }, found %s" % sf, A.where(fn, structs[0]))
     else:
         rule.ok("result SsaTape carries the rebuilt tape and the recounted choices/outputs")
-    if A.unparse(f.get("asm")).replace(" ", "") not in ("asm_tape",):
+    if A.ftxt(f.get("asm")) not in ("asm_tape",):
         rule.bad("result|asm", "asm must be the allocator's finalized tape", A.where(fn, structs[0]))
     else:
         rule.ok("result asm is the allocator's tape")
     # length check up front
-    ifs = [i for i in A.find(fn["body"], "If") if "choices.len()" in A.unparse(i["cond"]).replace(" ", "") and "choice_count" in A.unparse(i["cond"])]
+    ifs = [i for i in A.find(fn["body"], "If") if "choices.len()" in A.ftxt(i["cond"]) and "choice_count" in A.unparse(i["cond"])]
     if ifs and A.strip(ifs[0]["cond"]).get("op") == "!=" and "Err" in A.unparse(ifs[0]["then"]):
         rule.ok("choice slice length is checked against the tape's choice count")
     else:
@@ -372,20 +372,20 @@ def r3_order_parity(rule, root=None):
     """evaluators walk the reversed RegTape (iter_asm = iter().rev()); simplify walks
     the SSA tape forward and the choices backward"""
     fn = A.find_fn(DATA, "iter_asm", self_ty="VmData", root=root)
-    t = A.unparse(fn["body"]).replace(" ", "")
+    t = A.ftxt(fn["body"])
     if t.count(".rev()") == 1 and "self.asm.iter()" in t:
         rule.ok("iter_asm = asm.iter().rev()", file=DATA, line=fn["ln"])
     else:
         rule.bad("iter_asm", "iter_asm must reverse the allocator's output exactly once; found `%s`" % t, A.where(fn))
     sf = simplify_fn(root)
     it, let = choice_iter_name(sf)
-    t = A.unparse(let["init"]).replace(" ", "")
+    t = A.ftxt(let["init"])
     if t == "choices.iter().rev()":
         rule.ok("simplify consumes choices back to front", file=DATA, line=let["ln"])
     else:
         rule.bad("choice_iter", "simplify must consume `choices.iter().rev()`, found `%s`" % t, A.where(sf, let))
     loop = main_loop(sf)
-    t = A.unparse(loop["iter"]).replace(" ", "")
+    t = A.ftxt(loop["iter"])
     if ".rev()" in t:
         rule.bad("ssa-walk", "simplify must walk the SSA tape front to back, found `%s`" % t, A.where(sf, loop))
     else:
@@ -393,8 +393,8 @@ def r3_order_parity(rule, root=None):
     # RegTape::new feeds the allocator in SSA order; SsaTape iter is forward
     rt = A.find_fn("fidget-core/src/compiler/reg_tape.rs", "new", self_ty="RegTape", root=root)
     loops = list(A.find(rt["body"], "For"))
-    t = A.unparse(loops[0]["iter"]).replace(" ", "") if loops else ""
-    if len(loops) == 1 and t == "ssa.iter()" and "alloc.op(op)" in A.unparse(loops[0]["body"]).replace(" ", ""):
+    t = A.ftxt(loops[0]["iter"]) if loops else ""
+    if len(loops) == 1 and t == "ssa.iter()" and "alloc.op(op)" in A.ftxt(loops[0]["body"]):
         rule.ok("RegTape::new allocates in SSA order")
     else:
         rule.bad("regtape-new", "RegTape::new must feed every op of `ssa.iter()` to the allocator in order", A.where(rt))
